@@ -245,6 +245,60 @@ class GroupGen(Pool):
         return [b'XRANGE', k, b'-', b'+']
 
 
+class GroupStoryGen(Pool):
+    """C16, the pending-entry accounting under hand-overs: ONE stream, ONE group, three consumers; deliveries in small
+    batches, claims in both directions (a consumer that holds newer entries takes over an older one and vice versa),
+    acknowledgements of the lowest / highest / a middle pending id, consumers deleted while they hold a bound of the
+    pending set, entries deleted under pending ids.  Meant to be driven with an audit after EVERY command (XPENDING
+    summary: total, lowest and highest id, per-consumer counts; extended form: every row)."""
+
+    def __init__(self, rnd):
+        Pool.__init__(self, rnd)
+        self.keys = [b's1']
+        self.groups = [b'g1']
+        self.cons = [b'c1', b'c2', b'c3']
+        self.next = self._next
+        self.n = 0
+        self.top = 0
+
+    def anid(self):
+        return b'%d-0' % self.rnd.randrange(1, self.top + 2)
+
+    def _next(self):
+        r = self.rnd
+        self.n += 1
+        k, g = b's1', b'g1'
+        cn = r.choice(self.cons)
+        if self.n == 1:
+            return [b'XGROUP', b'CREATE', k, g, b'0-0', b'MKSTREAM']
+        c = r.randrange(100)
+        if c < 16 or self.top < 3:
+            self.top += 1
+            return [b'XADD', k, b'%d-0' % self.top, b'f', b'%d' % self.top]
+        if c < 38:
+            return [b'XREADGROUP', b'GROUP', g, cn, b'COUNT', r.choice([b'1', b'1', b'2', b'3']), b'STREAMS', k, b'>']
+        if c < 60:
+            a = [b'XCLAIM', k, g, cn, b'0'] + sorted(set(self.anid() for _ in range(r.choice([1, 1, 2, 3]))), key=idkey)
+            if r.random() < 0.2:
+                a.append(b'JUSTID')
+            return a
+        if c < 74:
+            return [b'XACK', k, g] + [self.anid() for _ in range(r.choice([1, 1, 2]))]
+        if c < 84:
+            return [b'XGROUP', b'DELCONSUMER', k, g, cn]
+        if c < 88:
+            return [b'XDEL', k, self.anid()]
+        if c < 91:
+            return [b'XGROUP', b'CREATECONSUMER', k, g, cn]
+        if c < 94:
+            return [b'XPENDING', k, g, self.anid(), b'+', r.choice([b'1', b'2', b'10']), cn]
+        if c < 96:
+            return [b'XREADGROUP', b'GROUP', g, cn, b'NOACK', b'COUNT', b'1', b'STREAMS', k, b'>']
+        if c < 98:
+            return [b'XINFO', b'CONSUMERS', k, g]
+        return [b'XPENDING', k, g, b'-', self.anid(), b'10']
+
+
 # ---------------------------------------------------------------------------
 # drivers
 # ---------------------------------------------------------------------------
